@@ -96,6 +96,9 @@ def defs_all():
     add("discr-std-derives", Item("E", [Variant("A", "tuple", [Field("u8")]), Variant("B", "unit"), Variant("C", "named", [Field("u8", "x")])],
                                   dmetas=[DM("derive", paths=["Hash", "PartialOrd", "Ord"])]),
         ["EnumDiscriminants"])
+    # every derive ALONE on an enum that carries #[strum(crate = ..)]: each derive has to register the `strum` helper attribute itself
+    for d_ in DERIVES15:
+        add("solo", Item("E", unit3()), [d_])
     add("phf", Item("E", unit3() + [Variant("Ci", "unit", [], [aci(True, explicit=False)])], metas=[EM("phf")]), ["EnumString"])
     add("empty", Item("E", []), ["EnumString", "Display", "AsRefStr", "VariantNames", "EnumIter", "EnumCount", "EnumIs", "EnumTryAs", "FromRepr",
                                  "VariantArray"])   # EnumDiscriminants / EnumMessage / EnumProperty emit `match <&E> {}` on a zero-variant enum, which rustc rejects (no value exists; recorded in DESIGN.md)
